@@ -395,7 +395,15 @@ fn gen_schema(rng: &mut Rng) -> (Value, Vec<String>, Vec<String>, bool) {
         aname
       }
     };
-    text_fields.push(json!({"name": name, "analyzer": an, "stored": true, "indexed": true}));
+    let mut tf = json!({"name": name, "analyzer": an, "stored": true, "indexed": true});
+    match rng.below(8) {
+      // prefixes indexed, plain search side
+      0 => tf["search_as_you_type"] = json!({"min_gram": 1 + rng.below(2), "max_gram": 3 + rng.below(3)}),
+      // different analyzers on the two sides
+      1 => tf["search_analyzer"] = json!("default"),
+      _ => {}
+    }
+    text_fields.push(tf);
     tnames.push(name.to_string());
   }
   let mut kw = Vec::new();
@@ -989,7 +997,15 @@ impl Prop for C07 {
       let mx = [1usize, 3, 50][g.rng.below(3)];
       request["fuzzy"] = json!({"max_edits": g.rng.below(3), "prefix_length": 1 + g.rng.below(2), "max_expansions": mx, "min_length": 3 + g.rng.below(2)});
     }
-    let qs = g.query_text(false, true);
+    let qs = if g.rng.chance(1, 2) {
+      g.query_text(false, true)
+    } else {
+      // character soup for the query-string parser: quotes (also unbalanced), colons, dashes,
+      // assorted white space
+      let alphabet = ["a", "b", "rust", "body", ":", ":", "-", "--", "\"", "\"", " ", " ", "  ", "\t", "_", "1", "é", "\u{00a0}", "\n"];
+      let n = g.rng.below(14);
+      (0..n).map(|_| *g.rng.pick(&alphabet)).collect::<Vec<_>>().join("")
+    };
     json!({"schema": schema, "commits": commits, "request": request, "parse": qs})
   }
 
@@ -1094,7 +1110,7 @@ impl Prop for C07 {
   fn finish(&self, _tier: Tier, s: &mut Summary) {
     s.exhaustive = false;
     s.notes.push("not modelled and therefore not generated: function_score with boost_mode other than replace, field_value_factor/decay functions, score_mode avg (their drop decision depends on BM25 scores), arbitrary scripts, vector clauses".into());
-    s.notes.push("minimum_should_match percentages are generated from {0,25,50,75,100}% (exact in f32); field-name characters in quoted phrases are ASCII".into());
+    s.notes.push("minimum_should_match percentages are generated from {0,25,50,75,100}% (exact in f32); field-name characters in quoted phrases are recognised up to U+02C1".into());
     s.notes.push("phrase queries are generated on text fields only (keyword postings carry no positions, a phrase can never match a keyword field)".into());
   }
 }
